@@ -21,6 +21,8 @@ RULE = (
     "{16,24,32,48} (3-D), each member optionally enlarged by 1..6 cells (odd and FFT-unfriendly sizes; bound of the nominal size). Every member is integrated with the simulator's own compute_stable_timestep (last step shortened so that all "
     "members reach the same final time exactly) and compared with the closed-form solution sampled on position_field: relative discrete "
     "L2 error e(n). Oracles: observed order between consecutive members log(e_a/e_b)/log(n_b/n_a) >= 1 - delta, and e(n) <= B(n), with "
+    "order and monotone decrease are asserted only where the analytic solution's amplitude on the domain boundary is below the error "
+    "reached at the finest member (otherwise domain truncation, which no refinement removes, dominates; counted); "
     "delta and B(n) CALIBRATED on the unchanged tree (calibration/c02.json, produced by tools/calibrate_c02.py from >= 200 generated "
     "families: B = 3 x the largest error seen per resolution, delta = margin below the smallest order seen). Non-trivial: family with "
     ">= 3 resolutions, structure displaced by >= 2 coarse cells, peak reduced by diffusion by >= 5%. Distinct = digest of case."
@@ -165,6 +167,11 @@ def measure(case, ctx=None):
         den = float(np.sqrt(np.sum(ex**2)))
         errs[n] = num / den if np.isfinite(num) else float("inf")
         info[n] = steps
+        # amplitude of the analytic (unbounded-domain) solution on the outermost ring of the grid relative to its peak: the part of
+        # the error that is due to truncating the domain and does not converge under refinement
+        ring = np.ones(ex.shape, dtype=bool)
+        ring[(slice(1, -1),) * ex.ndim] = False
+        info["trunc"] = max(info.get("trunc", 0.0), float(np.max(np.abs(ex[ring]))) / (float(np.max(np.abs(ex))) + 1e-300))
     return errs, info
 
 
@@ -189,13 +196,23 @@ def _body(case, ctx):
     # observed order over the whole family (coarsest -> finest, at least a factor 2 in resolution); consecutive
     # pairs are reported in evidence only: in the pre-asymptotic range they scatter between 0.5 and 2
     a, b = fam[0], fam[-1]
-    if b >= 2 * a and errs[a] >= floor and errs[b] >= floor:
+    # "approaches the analytic solution under refinement" presupposes that the structure stays inside the domain: where the analytic
+    # solution is not small on the boundary compared with the error reached, the remaining error is domain truncation, which no
+    # refinement removes - the order and monotonicity assertions are then not made (counted); the calibrated bounds still are
+    truncation_dominates = info.get("trunc", 0.0) >= 1.0 * errs[b]
+    ratio = info.get("trunc", 0.0) / max(errs[b], 1e-300)
+    ctx.note(labels=["boundary_amplitude_over_final_error_" + ("lt0.2" if ratio < 0.2 else "lt1" if ratio < 1 else "ge1")])
+    if truncation_dominates:
+        ctx.note(labels=["order_not_asserted_domain_truncation_dominates"])
+    if not truncation_dominates and b >= 2 * a and errs[a] >= floor and errs[b] >= floor:
         order = np.log(errs[a] / errs[b]) / np.log(b / a)
         ctx.extra[f"min_order_{key}"] = min(ctx.extra.get(f"min_order_{key}", 99.0), float(order))
         if order < 1.0 - delta:
             raise Violation(f"{key}: observed order {order:.3f} between n={a} (e={errs[a]:.3e}) and n={b} (e={errs[b]:.3e}) is below 1 - delta = {1 - delta:.3f} "
                             f"(family {fam})")
     for x, y in zip(fam[:-1], fam[1:]):
+        if truncation_dominates:
+            break
         # members that differ by less than 30% in resolution (off-palette sizes) are in the pre-asymptotic scatter of each other:
         # "decreases under refinement" is demanded strictly only across a real refinement step
         if errs[y] > errs[x] * (1.02 if y >= 1.3 * x else 1.12):
